@@ -37,12 +37,14 @@ func (db *DB) Backup(path string) error {
 		}
 	}
 	db.mu.RUnlock()
+	verifYield("backup.snapshot")
 
 	srcFS := db.opts.FileSystem
 	dstFS := fs.Sub(db.opts.rootFS, path)
 
 	for _, seg := range segments {
 		name := segmentName(seg.id, seg.sequenceID)
+		verifYield("backup.segment")
 		mode := os.FileMode(0640)
 		srcFile, err := srcFS.OpenFile(name, os.O_RDONLY, mode)
 		if err != nil {
